@@ -46,21 +46,38 @@ fn same_raw_at(a: &RawBoard, b: &RawBoard, w: u8) -> bool {
 // ---- C18: the rules are colour-symmetric and (without castling) left-right symmetric ----------
 harness! {
     #[kani::unwind(10)]
-    fn c18_attack_and_validity_commute_with_mirrors() {
+    fn c18_attacks_commute_with_mirrors() {
         let raw = ab::any_raw();
         let t = ab::any_sq(); let s = ab::any_sq();
         let by_white = vk::any_bool();
         let v = mirror_v(&raw);
         assert!(rs::on(rs::ref_attackers(&v.cells, t ^ 56, !by_white), s ^ 56) == rs::on(rs::ref_attackers(&raw.cells, t, by_white), s));
-        assert!(rs::ref_valid(&v) == rs::ref_valid(&raw));
-        assert!(rs::ref_insufficient(&v.cells) == rs::ref_insufficient(&raw.cells));
         let h = mirror_h(&raw);
         assert!(rs::on(rs::ref_attackers(&h.cells, t ^ 7, by_white), s ^ 7) == rs::on(rs::ref_attackers(&raw.cells, t, by_white), s));
-        assert!(rs::ref_valid(&h) == rs::ref_valid(&raw));
-        assert!(rs::ref_insufficient(&h.cells) == rs::ref_insufficient(&raw.cells));
         // mirroring twice is the identity
         let vv = mirror_v(&v); let hh = mirror_h(&h);
         assert!(same_raw_at(&vv, &raw, t) && same_raw_at(&hh, &raw, t));
+        cover!(rs::on(rs::ref_attackers(&raw.cells, t, by_white), s));
+    }
+}
+harness! {
+    #[kani::unwind(10)]
+    fn c18_validity_commutes_with_colour_mirror() {
+        let raw = ab::any_raw();
+        let v = mirror_v(&raw);
+        assert!(rs::ref_valid(&v) == rs::ref_valid(&raw));
+        assert!(rs::ref_insufficient(&v.cells) == rs::ref_insufficient(&raw.cells));
+        cover!(rs::ref_valid(&raw));
+    }
+}
+harness! {
+    #[kani::unwind(10)]
+    fn c18_validity_commutes_with_left_right_mirror() {
+        let raw = ab::any_raw();
+        let h = mirror_h(&raw);
+        assert!(rs::ref_valid(&h) == rs::ref_valid(&raw));
+        assert!(rs::ref_insufficient(&h.cells) == rs::ref_insufficient(&raw.cells));
+        cover!(rs::ref_valid(&raw));
     }
 }
 harness! {
